@@ -681,6 +681,20 @@ def sources(body, operand_or_local, through=(), depth=60, _seen=None):
             k = o.get('k', {})
             if 'fn' in k:
                 out.add(('fn', k['fn']))
+            elif 'promoted' in k:
+                prom = body.rec.get('promoted') or []
+                idx = k['promoted']
+                if idx < len(prom):
+                    for it in prom[idx]:
+                        if 'adt' in it:
+                            from facts import np
+                            out.add(('agg', np(it['adt']), it.get('var')))
+                        elif 'v' in it:
+                            out.add(('const', it['v']))
+                        elif 'p' in it:
+                            out.add(('constp', it['p']))
+                else:
+                    out.add(('const', None))
             elif 'p' in k:
                 out.add(('constp', k['p']))
                 if 'v' in k:
@@ -707,6 +721,8 @@ def sources(body, operand_or_local, through=(), depth=60, _seen=None):
                         from_operand(a, d - 1)
                     if o == 'agg' and 'clo' in rv:
                         out.add(('closure', rv['clo']))
+                    if o == 'agg' and 'adt' in rv:
+                        out.add(('agg', rv['adt'], rv.get('var')))
             elif kind in ('call', 'pcall'):
                 cn = callee_of(payload)
                 out.add(('call', cn, bb))
@@ -979,3 +995,48 @@ def field_influences_result(body, field):
     if direct or sw or ret:
         return True, f'read into {sorted(s for s in seeds if s >= 0)[:4]}, switches {sw[:4]}, returned={ret}'
     return False, 'field is read but the value reaches neither a branch nor the result'
+
+
+def result_defs(body):
+    """Definitions that flow (through plain moves) into the return place:
+    list of (bb, kind, payload) with kind in const|call|agg|expr."""
+    to_ret = {0}
+    changed = True
+    while changed:
+        changed = False
+        for i, j, s in body.stmts():
+            pl, rv = s[0], s[1]
+            if len(pl) == 1 and pl[0] in to_ret and rv.get('op') == 'use':
+                src = op_place(rv['a'][0])
+                if src and len(src) == 1 and src[0] not in to_ret:
+                    to_ret.add(src[0])
+                    changed = True
+    out = []
+    for l in to_ret:
+        for (bb, idx, kind, payload) in body.defs.get(l, ()):
+            if body.is_cleanup(bb):
+                continue
+            if kind == 'assign':
+                rv = payload[1]
+                if rv.get('op') == 'use':
+                    a = rv['a'][0]
+                    if 'k' in a:
+                        out.append((bb, 'const', a['k'].get('v')))
+                    elif op_place(a) and len(op_place(a)) == 1 and op_place(a)[0] in to_ret:
+                        continue
+                    else:
+                        out.append((bb, 'expr', rv))
+                elif rv.get('op') == 'agg':
+                    out.append((bb, 'agg', rv))
+                else:
+                    out.append((bb, 'expr', rv))
+            elif kind == 'call':
+                out.append((bb, 'call', payload))
+            else:
+                out.append((bb, 'expr', payload))
+    return out
+
+
+def nonfalse_result_bbs(body):
+    """blocks where a bool function's result may become something other than constant false"""
+    return sorted({bb for (bb, kind, p) in result_defs(body) if not (kind == 'const' and p == 0)})
